@@ -3,7 +3,7 @@
 # (names ending in -h are harmless rewrites: the check must stay quiet)
 # records the verdict in /verif/seeded/RESULTS.tsv, and restores /repo (git checkout -- .).
 cd /verif
-names="$@"; [ -z "$names" ] && names=$(ls seeded | grep -E '^C[0-9]+-')
+names="$@"; [ -z "$names" ] && names=$(ls seeded | grep -E '^C[0-9]+-[a-z]$')
 for n in $names; do
   pid=${n%%-*}
   git -C /repo apply /verif/seeded/$n/patch.diff 2>/dev/null || { echo -e "$n\t$pid\tapply-failed"; continue; }
